@@ -10,18 +10,22 @@ THEOREMS = ["Mesa.Devs." + t for t in (
     "C14_clock_monotone", "C14_run_until_post", "C14_schedule_rejects_exactly", "C14_peek_is_execution_order",
     "C14_priority_order_generated", "C14_upfront_events_run_in_sorted_order", "C14_heapq_is_priority_queue",
     "C14_heap_refines_sorted_queue", "C14_spared_event_is_served", "C14_spared_event_is_served_rel",
-    "C14_spared_due_event_executed", "C14_execution_order", "C14_collected_never_executes")]
+    "C14_spared_due_event_executed", "C14_execution_order", "C14_collected_never_executes",
+    "C14_shared_callable_event_is_served", "C14_shared_due_event_executed", "C14_collected_callable_never_runs",
+    "C14_drop_kills_every_sharer")]
 COUNTS = {"quick": 600, "thorough": 200000}
 TRUSTED = [
     "heapq: no longer assumed — Model/Heap.lean transcribes Lib/heapq.py (heappush/heappop/_siftdown/_siftup), Proofs/Heap.lean proves it a priority queue for any strict weak order, Proofs/DevsHeap.lean proves the model's sorted list a sound abstraction of the heap array, and every check compares the transcription's array layout with CPython's heapq (the C accelerator _heapq is what actually runs); trusted: that EventList reaches its list only through heappush / heappop / iteration (read off the source)",
-    "CPython weakref: a callable dies exactly when the program drops its last strong reference (refcounting)",
+    "CPython weakref: a callable dies exactly when the program drops its last strong reference (refcounting); a callable that drops itself while it runs is kept alive by the running call only (it is dead when the call returns)",
     "times are ints in units of 1/1024: ints and dyadic floats, for which the code's +, <, <= are exact; IEEE rounding of other floats is not modelled",
     "event actions are command lists (schedule / cancel / drop); arbitrary Python side effects of callbacks are not modelled",
 ]
 ASSUMPTIONS = ["event programs terminate (generator emits well-founded programs only; theorems are stated for sufficient fuel)",
                "run_until(t) is called with t not before the clock (the property's quantifier)"]
 RULE = ("random scenarios over both simulator classes: <=5 event programs (nested scheduling to strictly smaller program index, "
-        "cancels, reference drops), 3-15 top-level ops from {abs, rel (incl. negative), cancel, drop, until, for, next, peek} with "
+        "cancels, reference drops, re-scheduling of shared callable objects), 3-15 top-level ops from {abs, rel (incl. negative), again, "
+        "cancel, drop, until, for, next, peek}; a shared-callable stream (few callables scheduled many times, same-tick sharers, drops "
+        "from the callable itself / other events / top level, cancels of single sharers; functions and bound methods) with "
         "times from a small set so that ties in time and priority are frequent; non-trivial = at least one run op executed "
         ">= 2 events; distinct = distinct op-line sequences (sha1)")
 
@@ -35,6 +39,8 @@ def generate(rng, tier, count):
             yield D.gen_peek_heavy(rng)
         elif k < 0.39:
             yield D.gen_wide(rng)
+        elif k < 0.53:
+            yield D.gen_shared(rng)
         else:
             yield D.gen_scenario(rng)
 
@@ -65,6 +71,7 @@ def tags(sc, obs):
         yield "branch:cancel"
     if any(e[0] == "drop" for e in tr):
         yield "branch:callable-collected"
+    yield from sorted(D.shared_tags(tr))
 
 
 if __name__ == "__main__":
